@@ -71,16 +71,17 @@ Section Pipe.
     (forall c, writer c = true -> allow c = true) -> allow (p_code h) = true ->
     step s (filter (P allow) (h :: r)) = step s (h :: r).
 
-  Fixpoint annot (s : S) (l : list tr) : list (tr * S) :=
-    match l with [] => [] | t :: r => let s' := step s (snd t) in (t, s') :: annot s' r end.
+  (* each delivered trace with the tables before and after its own decoding *)
+  Fixpoint annot (s : S) (l : list tr) : list (tr * (S * S)) :=
+    match l with [] => [] | t :: r => let s' := step s (snd t) in (t, (s, s')) :: annot s' r end.
 
-  Definition restrictS (allow : N -> bool) (x : tr * S) : tr * S :=
+  Definition restrictS (allow : N -> bool) (x : tr * (S * S)) : tr * (S * S) :=
     ((fst (fst x), filter (P allow) (snd (fst x))), snd x).
 
   Lemma annot_restrict allow : (forall c, writer c = true -> allow c = true) ->
     forall l s, Forall headed l ->
     annot s (map (fun t : tr => (fst t, filter (P allow) (snd t))) (filter (fun t : tr => allow (p_code (fst t))) l))
-    = map (restrictS allow) (filter (fun x : tr * S => allow (p_code (fst (fst x)))) (annot s l)).
+    = map (restrictS allow) (filter (fun x : tr * (S * S) => allow (p_code (fst (fst x)))) (annot s l)).
   Proof.
     intros HW. remember (filter (P allow)) as FW eqn:EFW.
     induction l as [|[e w] l IH]; intros s HF; cbn [filter map annot]; auto.
@@ -97,18 +98,19 @@ Section Pipe.
 
   Definition procf (cfg : fcfg) (s : S) (tid : N) : bool :=
     match c_proc cfg with None => true | Some p => proc_ok p s tid end.
-  Definition keepT (cfg : fcfg) (x : tr * S) : bool := tid_ok (c_tid cfg) (p_tid (fst (fst x))).
-  Definition keepP (cfg : fcfg) (x : tr * S) : bool := procf cfg (snd x) (p_tid (fst (fst x))).
-  Definition keepH (cfg : fcfg) (x : tr * S) : bool := post_keep cfg (p_code (fst (fst x))).
+  Definition keepT (cfg : fcfg) (x : tr * (S * S)) : bool := tid_ok (c_tid cfg) (p_tid (fst (fst x))).
+  (* the process filter runs on the decoded trace: tables as they are AFTER its own decoding *)
+  Definition keepP (cfg : fcfg) (x : tr * (S * S)) : bool := procf cfg (snd (snd x)) (p_tid (fst (fst x))).
+  Definition keepH (cfg : fcfg) (x : tr * (S * S)) : bool := post_keep cfg (p_code (fst (fst x))).
 
   (* traces(): events selected by class (helper classes included), paired, decoded (tables written), then the
      thread filter, the process filter and the helper post-filters on the decoded traces *)
-  Definition pipeline (cfg : fcfg) (s0 : S) (h : list pev) : list (tr * S) :=
+  Definition pipeline (cfg : fcfg) (s0 : S) (h : list pev) : list (tr * (S * S)) :=
     filter (keepH cfg) (filter (keepP cfg) (filter (keepT cfg)
       (annot s0 (delivered (pairs dom dec [] (filter (P (fed cfg)) h)))))).
 
   (* the same dump read with no filter at all *)
-  Definition reference (s0 : S) (h : list pev) : list (tr * S) := annot s0 (delivered (pairs dom dec [] h)).
+  Definition reference (s0 : S) (h : list pev) : list (tr * (S * S)) := annot s0 (delivered (pairs dom dec [] h)).
 
   Lemma filter_map_comm {A B} (f : A -> B) (p : B -> bool) (q : A -> bool) l :
     (forall x, p (f x) = q x) -> filter p (map f l) = map f (filter q l).
@@ -143,6 +145,29 @@ Section Pipe.
   Proof.
     intros HW x Hx. rewrite pipeline_commutes in Hx by exact HW. apply in_map_iff in Hx. destruct Hx as (y & <- & Hy).
     apply filter_In in Hy. destruct Hy as [Hy _]. exists y. auto.
+  Qed.
+  (* ---- identical text ----
+     The text of a trace is a function of the tables before its decoding and of its window.  Hypothesis (read-set
+     closure, c13_closed + c13_bsd_feeds_lookups + the always-fed classes): for a requested trace, dropping the records
+     that are not fed does not change the text. *)
+  Variable T : Type.
+  Variable text : S -> list pev -> T.
+  Definition text_of (x : tr * (S * S)) : T := text (fst (snd x)) (snd (fst x)).
+
+  Corollary pipeline_texts cfg s0 h :
+    (forall c, writer c = true -> fed cfg c = true) ->
+    (forall s e w, headed (e, w) -> requested cfg (p_code e) = true -> text s (filter (P (fed cfg)) w) = text s w) ->
+    map text_of (pipeline cfg s0 h)
+    = map text_of (filter (fun x => requested cfg (p_code (fst (fst x))) && keepT cfg x && keepP cfg x) (reference s0 h)).
+  Proof.
+    intros HW HT. rewrite pipeline_commutes by exact HW. rewrite map_map.
+    unfold reference. pose proof (delivered_headed dom dec h []) as HF.
+    assert (HA : forall l s, Forall headed l -> Forall (fun x : tr * (S * S) => headed (fst x)) (annot s l)).
+    { induction l as [|t l IH]; intros s H; cbn [annot]; constructor; inversion H; subst; auto. }
+    specialize (HA _ s0 HF). rewrite Forall_forall in HA.
+    apply map_ext_in. intros x Hx. apply filter_In in Hx. destruct Hx as [Hin Hp].
+    apply andb_true_iff in Hp. destruct Hp as [Hp _]. apply andb_true_iff in Hp. destruct Hp as [Hr _].
+    specialize (HA x Hin). destruct x as [[e w] ss]. unfold text_of, restrictS. cbn [fst snd] in *. apply (HT (fst ss) e w); assumption.
   Qed.
 End Pipe.
 
